@@ -326,4 +326,70 @@ Section Step.
         * left. apply Hset. exact Hc.
         * right. auto.
   Qed.
+
+  Lemma fold_batches_inv seen bl : forall P acc,
+    (forall s, In s P -> U s) -> (forall b, In b bl -> forall s, In s b -> U s) ->
+    (forall lay, In lay seen -> sortedZ lay) ->
+    BInv seen P acc -> BInv seen (P ++ concat bl) (fold_left (batch_step G seen) bl acc).
+  Proof.
+    induction bl as [|b bl IH]; intros P acc HP Hbl Hseen Hinv.
+    - simpl. rewrite app_nil_r. exact Hinv.
+    - simpl. rewrite app_assoc. apply IH.
+      + intros s Hs. apply in_app_iff in Hs. destruct Hs; [auto | apply (Hbl b); simpl; auto].
+      + intros b' Hb'. apply Hbl. simpl; auto.
+      + exact Hseen.
+      + apply batch_step_inv; auto. apply Hbl; simpl; auto.
+  Qed.
+
+  Lemma expand_batched_spec cfg st l2 l2h :
+    (forall s, In s (layer1 st) -> U s) ->
+    (forall lay, In lay (seen st) -> sortedZ lay) ->
+    (0 < Z.to_nat ((lenZ (layer1_h st) + batch_size cfg - 1) / batch_size cfg))%nat ->
+    expand_batched G cfg st = (l2, l2h) ->
+    NoDup l2 /\ Permutation l2h (map hf l2) /\ StronglySorted Z.lt l2h /\
+    (forall t, In t l2 <->
+       In t (get_neighbors G (layer1 st)) /\ forall lay, In lay (seen st) -> ~ In (hf t) lay).
+  Proof.
+    intros HU Hseen Hnb. unfold expand_batched.
+    set (nb := Z.to_nat ((lenZ (layer1_h st) + batch_size cfg - 1) / batch_size cfg)) in *.
+    assert (Hinv : BInv (seen st) (layer1 st)
+                     (fold_left (batch_step G (seen st)) (tensor_split nb (layer1 st)) ([], []))).
+    { pose proof (fold_batches_inv (seen st) (tensor_split nb (layer1 st)) [] ([], [])) as H.
+      rewrite tensor_split_concat in H by exact Hnb. simpl app in H. apply H.
+      - intros s [].
+      - intros b Hb s Hs. apply HU. rewrite <- (tensor_split_concat nb (layer1 st) Hnb).
+        apply in_concat. eauto.
+      - exact Hseen.
+      - unfold BInv. simpl fst. simpl snd. split; [reflexivity|]. split; [intros h []|].
+        split; [constructor|]. intros t. simpl concat. split; [intros []|].
+        intros [Ht _]. apply get_neighbors_spec in Ht. destruct Ht as (x & g & [] & _). }
+    destruct (fold_left (batch_step G (seen st)) (tensor_split nb (layer1 st)) ([], []))
+      as [bs hss].
+    destruct Hinv as (Hal & Hsorted & Hnd & Hset). simpl fst in *. simpl snd in *.
+    intros Heq.
+    assert (HbsU : forall t, In t (concat bs) -> U t).
+    { intros t Ht. apply Hset in Ht. destruct Ht as [Ht _]. exact (neighbors_U _ HU t Ht). }
+    assert (Hch : concat hss = map hf (concat bs)).
+    { rewrite Hal, concat_map. reflexivity. }
+    assert (Hp2 : Permutation (sort_z (concat hss)) (map hf (concat bs))).
+    { rewrite <- Hch. apply sort_z_perm. }
+    assert (Hndh : NoDup (map hf (concat bs))).
+    { apply NoDup_map_inj_on; auto. }
+    assert (Hss : StronglySorted Z.lt (sort_z (concat hss))).
+    { apply SSle_NoDup_lt; [apply sort_z_sorted|].
+      eapply Permutation_NoDup; [symmetry; exact Hp2 | exact Hndh]. }
+    assert (Hp1 : Permutation l2 (concat bs)).
+    { destruct (is_identity G) eqn:Eid; inversion Heq; subst; [|reflexivity].
+      etransitivity; [apply Permutation_map; exact Hp2|].
+      rewrite map_map. rewrite <- (map_id (concat bs)) at 2.
+      erewrite map_ext_in; [reflexivity|]. intros a Ha. apply IdOK; auto. }
+    assert (El2h : l2h = sort_z (concat hss)) by (inversion Heq; reflexivity).
+    subst l2h. split; [|split; [|split]].
+    - eapply Permutation_NoDup; [symmetry; exact Hp1 | exact Hnd].
+    - etransitivity; [exact Hp2|]. apply Permutation_map. symmetry. exact Hp1.
+    - exact Hss.
+    - intros t. rewrite <- Hset. split; intros Ht.
+      + eapply Permutation_in; [exact Hp1 | exact Ht].
+      + eapply Permutation_in; [symmetry; exact Hp1 | exact Ht].
+  Qed.
 End Step.
